@@ -11,6 +11,17 @@ class SimFuture(concurrent.futures.Future):
     pass
 
 
+class _Finished:
+    def done(self):
+        return True
+
+    def running(self):
+        return False
+
+
+_FINISHED = _Finished()
+
+
 class SimPool:
     def __init__(self):
         self.tasks = []          # (future, fn, args)
@@ -47,6 +58,12 @@ class SimPool:
         t.join(30)
         if t.is_alive():
             raise HarnessError('simulated worker did not finish')
+        # like a real executor, the pool lets go of a finished task and its arguments (a delivered or failed snapshot is
+        # garbage afterwards, and the next object of its size takes over its address)
+        for i, t_ in enumerate(self.tasks):
+            if t_[0] is f:
+                self.tasks[i] = (_FINISHED, None, (), {})       # (a failed future would hold the traceback, and that the task)
+        del fn, args, kwargs, pend, f
         return True
 
     def complete_all(self):
